@@ -20,6 +20,7 @@ import (
 	"verif/internal/enum"
 	"verif/internal/evid"
 	"verif/internal/views"
+	"verif/props/c17"
 )
 
 const limit = 10000
@@ -662,6 +663,7 @@ func Run(r *evid.Run) {
 	r.Sample(Case{Part: "cycle", Path: "interface holding pointer to itself"})
 	r.Bound("cycles: %d cyclic Go values, each marshaled 3 ways in a child process", len(cycles))
 	misuse(r)
+	c17.MarshalPolicingPanics(r, "c20") // user-code scripts (incl. nested delegation): no panic
 	// sweep
 	lens := views.ForTier(r.Tier).Minus(1)
 	vs := views.Views(lens)
